@@ -111,6 +111,43 @@ Return(p, st, e, r) == /\ ret' = [ret EXCEPT ![p] = [st |-> st, ep |-> e, root |
                        /\ pc' = [pc EXCEPT ![p] = "done"]
 
 ---------------------------------------------------------------------------
+(* Effects of the commit protocol on the shared state.  The publisher actions below are "control   *)
+(* state + effect"; TraceConcurrent binds the SAME effects to the events recorded from the real     *)
+(* code at the transaction's linearization points and at the database writes.                       *)
+
+(* Transaction::rollback_transaction *)
+Rollback == txnActive' = FALSE /\ txnLog' = EmptyLog
+
+(* TreeNode::write_to_storage: the record put into the log for node k at epoch e, whose new content *)
+(* is F(content as of e).  The version as of e - 1 is shifted into `prev`.                          *)
+NodeWriteRec(k, e, F(_)) ==
+  LET rec == GetNodeRec(k)
+      cur == Pick(rec, e)
+      old == Pick(rec, e - 1)
+      content == IF cur.st = "ok" THEN cur.v.c ELSE {}
+  IN [latest |-> Ver(e, F(content)), prev |-> IF old.st = "ok" THEN old.v ELSE NoRec]
+
+LogNode(k, newrec) == txnLog' = [txnLog EXCEPT !.nodes = (k :> newrec) @@ txnLog.nodes]
+LogAzks(e) == txnLog' = [txnLog EXCEPT !.azks = e]
+
+(* Transaction::drain_transaction: the log moves into the committing call, the flag stays as it is *)
+Drain(p) == /\ loc' = [loc EXCEPT ![p].recs = txnLog.nodes, ![p].azks = txnLog.azks]
+            /\ txnLog' = EmptyLog
+
+RootAsOf(d, e) == LET r == Pick(d.nodes[RootKey], e) IN IF r.st = "ok" THEN r.v.c ELSE {}
+
+(* StorageManager::write_committed_records: database write of the drained records, then the cache *)
+CommitToDb(recs, azks) ==
+  LET newdb == [azks |-> azks, nodes |-> recs @@ db.nodes]        \* the records written replace those with the same key
+  IN /\ db' = newdb
+     /\ published' = [published EXCEPT ![newdb.azks] = @ \cup { RootAsOf(newdb, newdb.azks) }]
+     /\ cache' = IF HasCache
+                   THEN [hasAzks |-> TRUE, azks |-> newdb.azks,
+                         nodes |-> [k \in (DOMAIN cache.nodes) \cup (DOMAIN recs) |->
+                                      IF k \in DOMAIN recs THEN recs[k] ELSE cache.nodes[k]]]
+                   ELSE cache
+
+---------------------------------------------------------------------------
 (* publisher: Directory::publish (directory.rs:104-265) *)
 
 (* retrieve_azks *)
@@ -144,13 +181,13 @@ PBegin(p) ==
 PRecheck(p) ==
   /\ pc[p] = "p_recheck"
   /\ \/ /\ MayFail(AzksSrc = "db") /\ Fail(p)
-        /\ txnActive' = FALSE /\ txnLog' = EmptyLog       \* rollback
+        /\ Rollback
         /\ UNCHANGED <<db, cache, loc, published, rcache>>
      \/ /\ cache' = CacheFillAzks
         /\ IF GetAzks = loc[p].epoch
              THEN /\ pc' = [pc EXCEPT ![p] = "p_node"]
                   /\ UNCHANGED <<txnActive, txnLog, ret, rcache>>
-             ELSE /\ txnActive' = FALSE /\ txnLog' = EmptyLog
+             ELSE /\ Rollback
                   /\ Return(p, "err", 0, {})
         /\ UNCHANGED <<db, loc, faults, published, rcache>>
 
@@ -160,23 +197,19 @@ PNode(p) ==
   /\ pc[p] = "p_node"
   /\ LET k == Keys[loc[p].i]
          e == loc[p].epoch + 1
-         rec == GetNodeRec(k)
-         cur == Pick(rec, e)
-         old == Pick(rec, e - 1)
+         cur == Pick(GetNodeRec(k), e)
      IN \/ /\ MayFail(Src(k) = "db") /\ Fail(p)
-           /\ txnActive' = FALSE /\ txnLog' = EmptyLog          \* rollback_transaction
+           /\ Rollback                                          \* rollback_transaction
            /\ UNCHANGED <<db, cache, loc, published, rcache>>
         \/ /\ cur.st = "err"
-           /\ txnActive' = FALSE /\ txnLog' = EmptyLog
+           /\ Rollback
            /\ Return(p, "err", 0, {})
            /\ UNCHANGED <<db, cache, loc, faults, published, rcache>>
         \/ /\ cur.st # "err"
-           /\ LET content == IF cur.st = "ok" THEN cur.v.c ELSE {}
-                  newrec == [latest |-> Ver(e, content \cup {Mark(p)}),
-                             prev |-> IF old.st = "ok" THEN old.v ELSE NoRec]
-              IN /\ txnLog' = [txnLog EXCEPT !.nodes = (k :> newrec) @@ txnLog.nodes]
+           /\ LET newrec == NodeWriteRec(k, e, LAMBDA c : c \cup {Mark(p)})
+              IN /\ LogNode(k, newrec)
                  /\ loc' = [loc EXCEPT ![p].i = loc[p].i + 1,
-                                        ![p].root = IF k = RootKey THEN content \cup {Mark(p)} ELSE loc[p].root]
+                                        ![p].root = IF k = RootKey THEN newrec.latest.c ELSE loc[p].root]
            /\ cache' = CacheFillNode(k)
            /\ pc' = [pc EXCEPT ![p] = IF loc[p].i = Len(Keys) THEN "p_set_azks" ELSE "p_node"]
            /\ UNCHANGED <<db, txnActive, faults, published, ret, rcache>>
@@ -184,19 +217,16 @@ PNode(p) ==
 (* batch_set([Azks, value states]) into the log; (repaired) root hash from the log; drain the log *)
 PSetAzks(p) ==
   /\ pc[p] = "p_set_azks"
-  /\ txnLog' = [txnLog EXCEPT !.azks = loc[p].epoch + 1]
+  /\ LogAzks(loc[p].epoch + 1)
   /\ pc' = [pc EXCEPT ![p] = "p_drain"]
   /\ UNCHANGED <<db, txnActive, cache, rcache, loc, faults, published, ret>>
 
 PDrain(p) ==
   /\ pc[p] = "p_drain"
-  /\ loc' = [loc EXCEPT ![p].recs = txnLog.nodes, ![p].azks = loc[p].epoch + 1]
-  /\ txnLog' = EmptyLog
+  /\ Drain(p)
   /\ txnActive' = IF FlagHeldThroughDbWrite THEN txnActive ELSE FALSE
   /\ pc' = [pc EXCEPT ![p] = "p_db_write"]
   /\ UNCHANGED <<db, cache, faults, published, ret, rcache>>
-
-RootAsOf(d, e) == LET r == Pick(d.nodes[RootKey], e) IN IF r.st = "ok" THEN r.v.c ELSE {}
 
 (* the commit's database write (all records; epoch record last is refined in AkdTrie / C11) *)
 PDbWrite(p) ==
@@ -204,15 +234,7 @@ PDbWrite(p) ==
   /\ \/ /\ MayFail(TRUE) /\ Fail(p)
         /\ txnActive' = IF FlagHeldThroughDbWrite THEN FALSE ELSE txnActive
         /\ UNCHANGED <<db, txnLog, cache, loc, published, rcache>>
-     \/ /\ LET newdb == [azks |-> loc[p].azks,
-                         nodes |-> [k \in KeySet |-> IF k \in DOMAIN loc[p].recs THEN loc[p].recs[k] ELSE db.nodes[k]]]
-           IN /\ db' = newdb
-              /\ published' = [published EXCEPT ![newdb.azks] = @ \cup { RootAsOf(newdb, newdb.azks) }]
-              /\ cache' = IF HasCache
-                            THEN [hasAzks |-> TRUE, azks |-> newdb.azks,
-                                  nodes |-> [k \in (DOMAIN cache.nodes) \cup (DOMAIN loc[p].recs) |->
-                                               IF k \in DOMAIN loc[p].recs THEN loc[p].recs[k] ELSE cache.nodes[k]]]
-                            ELSE cache
+     \/ /\ CommitToDb(loc[p].recs, loc[p].azks)
         /\ txnActive' = IF FlagHeldThroughDbWrite THEN FALSE ELSE txnActive
         /\ pc' = [pc EXCEPT ![p] = IF RootHashBeforeCommit THEN "p_ret" ELSE "p_root_after"]
         /\ UNCHANGED <<txnLog, loc, faults, ret, rcache>>
